@@ -422,3 +422,11 @@ pub mod plumbing {
         pub use crate::tracked_struct::{Configuration, IngredientImpl, JarImpl, Value};
     }
 }
+
+/// Verification hook: shared harness vocabulary (stubs, key/thread-id builders), compiled only by
+/// the Kani compiler. The text lives outside this repository (`$SALSA_VERIF_HARNESS_DIR`).
+#[cfg(kani)]
+#[allow(dead_code, unused_imports)]
+pub(crate) mod verif_prelude {
+    include!(concat!(env!("SALSA_VERIF_HARNESS_DIR"), "/prelude.rs"));
+}
